@@ -387,11 +387,41 @@ func buildSrs(ss []SubResS) (upc.UEPolicySectionManagementResultContent, bool) {
 	return rc, perr
 }
 
+// live is ONE structure that stays alive between calls: built once, encoded, grown, encoded again
+type live struct {
+	lc   upc.UEPolicySectionManagementListContent
+	rc   upc.UEPolicySectionManagementResultContent
+	perr bool
+}
+
+func newLive(st St) *live {
+	L := &live{}
+	switch uint8(st.Type) {
+	case upc.MsgTypeManageUEPolicyCommand:
+		L.lc, L.perr = buildSubs(st.Subs)
+	case upc.MsgTypeManageUEPolicyReject:
+		L.rc, L.perr = buildSrs(st.Srs)
+	}
+	return L
+}
+
 func (s *sess) build(st St) []byte {
+	var L *live
+	if pi, hang := guarded(func() { L = newLive(st) }); pi != nil || hang {
+		e := BuildEv{Op: "Build", St: st, Enc: []int{}, Built: emptyProj(), Dec: emptyProj(), Dmm: [][]int{}, Lenc: []int{}, Ldec: emptyProj(), Obs: obs(pi, hang)}
+		s.w.Emit(e)
+		return nil
+	}
+	return s.encode("Build", st, L)
+}
+
+// encode puts the live contents into a message the way the API intends (contents marshalled, IE length
+// set from them with its setter), encodes the message and decodes the octets again
+func (s *sess) encode(opname string, st St, L *live) []byte {
 	if hangs["Build"] >= 3 {
 		return nil
 	}
-	e := BuildEv{Op: "Build", St: st, Enc: []int{}, Built: emptyProj(), Dec: emptyProj(), Dmm: [][]int{}, Lenc: []int{}, Ldec: emptyProj()}
+	e := BuildEv{Op: opname, St: st, Enc: []int{}, Built: emptyProj(), Dec: emptyProj(), Dmm: [][]int{}, Lenc: []int{}, Ldec: emptyProj()}
 	var enc []byte
 	pi, hang := guarded(func() {
 		u := upc.NewUePolDeliverySer()
@@ -406,9 +436,8 @@ func (s *sess) build(st St) []byte {
 		case upc.MsgTypeManageUEPolicyCommand:
 			c := upc.NewManageUEPolicyCommand(uint8(st.Type))
 			c.PTI.SetPTI(uint8(st.Pti))
-			lc, perr := buildSubs(st.Subs)
-			e.Perr = perr
-			cb, err := lc.MarshalBinary()
+			e.Perr = L.perr
+			cb, err := L.lc.MarshalBinary()
 			if err != nil {
 				e.Eerr = true
 				return
@@ -426,7 +455,7 @@ func (s *sess) build(st St) []byte {
 			}
 			u.ManageUEPolicyCommand = c
 			b.Iei, b.Len = int(c.UEPolicySectionManagementList.GetIei()), int(c.UEPolicySectionManagementList.GetLen())
-			b.Subs, _ = projSubs(lc)
+			b.Subs, _ = projSubs(L.lc)
 			if k := c.UEPolicyNetworkClassmark; k != nil {
 				b.Cm = []int{int(k.GetIei()), int(k.GetLen()), int(k.GetNSSUI()), int(k.GetSpare())}
 			}
@@ -449,9 +478,8 @@ func (s *sess) build(st St) []byte {
 		case upc.MsgTypeManageUEPolicyReject:
 			c := upc.NewManageUEPolicyReject(uint8(st.Type))
 			c.PTI.SetPTI(uint8(st.Pti))
-			rc, perr := buildSrs(st.Srs)
-			e.Perr = perr
-			cb, err := rc.MarshalBinary()
+			e.Perr = L.perr
+			cb, err := L.rc.MarshalBinary()
 			if err != nil {
 				e.Eerr = true
 				return
@@ -461,7 +489,7 @@ func (s *sess) build(st St) []byte {
 			c.UEPolicySectionManagementResult.SetUEPolicySectionManagementResultContent(cb)
 			u.ManageUEPolicyReject = c
 			b.Iei, b.Len = int(c.UEPolicySectionManagementResult.GetIei()), int(c.UEPolicySectionManagementResult.GetLen())
-			b.Srs, _ = projSrs(rc)
+			b.Srs, _ = projSrs(L.rc)
 			lenc, lerr = c.UEPolicySectionManagementResult.MarshalBinary()
 			if lerr == nil {
 				var l2 upc.UEPolicySectionManagementResult
@@ -495,6 +523,151 @@ func (s *sess) build(st St) []byte {
 	}
 	s.w.Emit(e)
 	return enc
+}
+
+// ---------------------------------------------------------------- histories on one live object
+type HOp struct {
+	Op    string          `json:"op"` // enc | grow | adopt
+	Level string          `json:"level"`
+	S     int             `json:"s"` // 1-based sublist / subresult
+	I     int             `json:"i"` // 1-based instruction
+	Item  json.RawMessage `json:"item"`
+}
+type HistEv struct {
+	Op    string          `json:"op"` // TraceReset | HNew | HGrow | HAdopt
+	Kind  string          `json:"kind"`
+	Val   json.RawMessage `json:"val"`
+	Level string          `json:"level"`
+	S     int             `json:"s"`
+	I     int             `json:"i"`
+	Item  json.RawMessage `json:"item"`
+	Ok    bool            `json:"ok"`
+	Obs
+}
+
+var nullJSON = json.RawMessage("[]")
+
+const histPti, histIei = 9, 77
+
+func (s *sess) history(kind string, val json.RawMessage, ops []HOp) {
+	s.w.Emit(HistEv{Op: "TraceReset", Kind: kind, Val: nullJSON, Item: nullJSON})
+	st := St{Pti: histPti, Iei: histIei, Subs: []SubS{}, Srs: []SubResS{}, Cm: []int{}}
+	full := st
+	if kind == "list" {
+		st.Type, full.Type = 1, 1
+		if err := json.Unmarshal(val, &full.Subs); err != nil {
+			ev.Fatal("history val: %v", err)
+		}
+	} else {
+		st.Type, full.Type = 3, 3
+		if err := json.Unmarshal(val, &full.Srs); err != nil {
+			ev.Fatal("history val: %v", err)
+		}
+	}
+	normSt(&full)
+	var L *live
+	pi, hang := guarded(func() { L = newLive(full) })
+	s.w.Emit(HistEv{Op: "HNew", Kind: kind, Val: val, Item: nullJSON, Ok: pi == nil && !hang && !L.perr, Obs: obs(pi, hang)})
+	if pi != nil || hang {
+		return
+	}
+	var wire []byte
+	for _, o := range ops {
+		switch o.Op {
+		case "enc":
+			wire = s.encode("HEnc", st, L)
+			if wire == nil {
+				return // the encoding failed: the event says so, the history ends
+			}
+		case "adopt":
+			// the received octets are decoded and the decoded structure becomes the live one
+			ok := false
+			pi, hang := guarded(func() {
+				d := upc.NewUePolDeliverySer()
+				if e := d.UePolDeliverySerDecode(append([]byte{}, wire...)); e != nil {
+					return
+				}
+				N := &live{}
+				if kind == "list" && d.ManageUEPolicyCommand != nil {
+					if e := N.lc.UnmarshalBinary(d.ManageUEPolicyCommand.UEPolicySectionManagementList.GetUEPolicySectionManagementListContent()); e != nil {
+						return
+					}
+				} else if kind == "result" && d.ManageUEPolicyReject != nil {
+					if e := N.rc.UnmarshalBinary(d.ManageUEPolicyReject.UEPolicySectionManagementResult.GetUEPolicySectionManagementResultContent()); e != nil {
+						return
+					}
+				} else {
+					return
+				}
+				L, ok = N, true
+			})
+			s.w.Emit(HistEv{Op: "HAdopt", Kind: kind, Val: nullJSON, Item: nullJSON, Ok: ok, Obs: obs(pi, hang)})
+			if !ok {
+				return
+			}
+		case "grow":
+			ok := false
+			pi, hang := guarded(func() {
+				switch o.Level {
+				case "part":
+					var p PartS
+					if json.Unmarshal(o.Item, &p) != nil || o.S < 1 || o.S > len(L.lc) || o.I < 1 || o.I > len(L.lc[o.S-1].UEPolicySectionManagementSubListContents) {
+						return
+					}
+					var pt upc.UEPolicyPart
+					pt.UEPolicyPartType.SetPartType(byte(p.Ty))
+					pt.SetPartContent(ev.Bytes(p.C))
+					L.lc[o.S-1].UEPolicySectionManagementSubListContents[o.I-1].UEPolicySectionContents.AppendUEPolicyPart(&pt)
+				case "ins":
+					var i InsS
+					if json.Unmarshal(o.Item, &i) != nil || o.S < 1 || o.S > len(L.lc) {
+						return
+					}
+					one, _ := buildSubs([]SubS{{Mcc: 100, Mnc: 10, Ins: []InsS{i}}})
+					L.lc[o.S-1].UEPolicySectionManagementSubListContents.AppendInstruction(one[0].UEPolicySectionManagementSubListContents[0])
+				case "sub":
+					var x SubS
+					if json.Unmarshal(o.Item, &x) != nil {
+						return
+					}
+					one, perr := buildSubs([]SubS{x})
+					if perr {
+						return
+					}
+					L.lc.AppendSublist(one[0])
+				case "res":
+					var r ResS
+					if json.Unmarshal(o.Item, &r) != nil || o.S < 1 || o.S > len(L.rc) {
+						return
+					}
+					one, _ := buildSrs([]SubResS{{Mcc: 100, Mnc: 10, Rs: []ResS{r}}})
+					L.rc[o.S-1].UEPolicySectionManagementSubResultContents.AppendResult(one[0].UEPolicySectionManagementSubResultContents[0])
+				case "sres":
+					var x SubResS
+					if json.Unmarshal(o.Item, &x) != nil {
+						return
+					}
+					one, perr := buildSrs([]SubResS{x})
+					if perr {
+						return
+					}
+					L.rc.AppendSublist(one[0])
+				default:
+					return
+				}
+				ok = true
+			})
+			if !ok && pi == nil && !hang {
+				ev.Fatal("history: growth step %+v cannot be applied", o)
+			}
+			s.w.Emit(HistEv{Op: "HGrow", Kind: kind, Val: nullJSON, Level: o.Level, S: o.S, I: o.I, Item: o.Item, Ok: ok, Obs: obs(pi, hang)})
+			if !ok {
+				return
+			}
+		default:
+			ev.Fatal("unknown history op %q", o.Op)
+		}
+	}
 }
 
 // ---------------------------------------------------------------- PLMN rows
@@ -575,7 +748,10 @@ type Job struct {
 	Patches [][]int  `json:"patches"` // [pos0, value]: the 16-bit field at offset pos0 replaced by value
 }
 type Case struct {
-	K     string `json:"k"` // build | plmn | dec
+	K     string          `json:"k"` // build | plmn | dec | hist
+	Kind  string          `json:"kind"`
+	Val   json.RawMessage `json:"val"`
+	Ops   []HOp           `json:"ops"`
 	St    *St    `json:"st"`
 	Jobs  []Job  `json:"jobs"`
 	Which string `json:"which"`
@@ -663,6 +839,8 @@ func replay(in, out string) {
 			s.runJobs(c.Jobs)
 		case "dec":
 			s.runJobs(c.Jobs)
+		case "hist":
+			s.history(c.Kind, c.Val, c.Ops)
 		case "plmn":
 			if c.Vary == nil {
 				c.Vary = []int{}
